@@ -1,6 +1,13 @@
 import ScrutModel.Lemmas.Exec
+import ScrutModel.Lemmas.TestRunProps
 /-!
 # C15 — The skip exit code skips the whole document, and nothing else does
+
+The second half (`C15_integrated_…`, `C15_document_…`, `C15_script_…`) states the property about the
+INTEGRATED model of `scrut test` (`Model/TestRun.lean`, tied to the binary by `e2e-testdoc`,
+`e2e-testcram`, `e2e-testdoc-cram-compat`).  The runs of the integrated model are COMPLETED commands
+(exit code, stdout, stderr): no timeouts exist in this fragment, so the only source of a `skipped`
+verdict is the skip code (`C15_integrated_nothing_else_skips`).
 -/
 namespace Scrut.Props.C15
 open Scrut.Exec
@@ -62,5 +69,66 @@ example :
     (execAll none (fun i _ => (⟨.code (if i = 1 then 7 else 0), true, true⟩, 0))
       [⟨none, .stdout, none, none, true⟩, ⟨none, .stdout, some 7, none, true⟩, ⟨none, .stdout, none, none, true⟩]).1
       = .skipped 1 := by decide
+
+/-! ## through the composition: `scrut test` on one document (`Model/TestRun.lean`) -/
+
+section Integrated
+open Scrut.TestRun
+
+/-- reading aid: `skips tests runs` says that the command of some test of the document ended with
+THAT test's skip code (`skip_document_code`, 80 unless configured) -/
+theorem C15_skips_iff (tests : List Test) (runs : List Ran) :
+    skips tests runs = true ↔
+      ∃ (i : Nat) (t : Test) (r : Ran), tests[i]? = some t ∧ runs[i]? = some r ∧
+        r.code = t.cfg.skipCode.getD 80 := by
+  rw [skips_iff]
+  simp only [hitsSkip_iff]
+
+/-- **C15, integrated** (the skip code skips the whole document): if the command of some test ended
+with that test's skip code, every test of the document is reported `skipped` -- also those that ran
+before it -- and the exit status is 0. -/
+theorem C15_integrated_skip_all {tests : List Test} {runs : List Ran} {outcomes : List Outcome}
+    {status : Nat} (h : runTests tests runs = .report outcomes status)
+    (hs : skips tests runs = true) :
+    outcomes = (List.range tests.length).map (fun i => (i, Verdict.skipped)) ∧ status = 0 :=
+  runTests_skip_all h hs
+
+/-- **C15, integrated** (nothing else skips): test `i` is reported `skipped` only if some test of
+the document ended with its skip code; every other verdict is `success`, wrong output or wrong exit
+code -- a completed command is never reported as timed out or as an internal error. -/
+theorem C15_integrated_nothing_else_skips {tests : List Test} {runs : List Ran}
+    {outcomes : List Outcome} {status : Nat} (h : runTests tests runs = .report outcomes status) :
+    (∀ i, (i, Verdict.skipped) ∈ outcomes ↔ (i < tests.length ∧ skips tests runs = true)) ∧
+    (∀ o ∈ outcomes, o.2 = .ok ∨ o.2 = .malformed ∨ o.2 = .skipped ∨ ∃ c e, o.2 = .invalidExit c e) :=
+  runTests_verdicts h
+
+/-- **C15 from the bytes of the document**: both directions for the prepared tests of the document -/
+theorem C15_document_skip {bytes : Bytes} {runs : List Ran} {outcomes : List Outcome}
+    {status : Nat} (h : testDocumentBytes bytes runs = .report outcomes status) :
+    ∃ tests, DocTests bytes tests ∧
+      (skips tests runs = true →
+        outcomes = (List.range tests.length).map (fun i => (i, Verdict.skipped)) ∧ status = 0) ∧
+      (∀ i, (i, Verdict.skipped) ∈ outcomes ↔ (i < tests.length ∧ skips tests runs = true)) ∧
+      (∀ o ∈ outcomes, o.2 = .ok ∨ o.2 = .malformed ∨ o.2 = .skipped ∨ ∃ c e, o.2 = .invalidExit c e) :=
+  testDocumentBytes_skip h
+
+/-- **C15, single-script executor** (Cram documents, `--cram-compat`), all or none: one `skipped`
+verdict means that every test of the document is reported `skipped`, and the exit status is 0. -/
+theorem C15_script_all_or_none {tests : List Test} {runs : List SRan} {outcomes : List Outcome}
+    {status : Nat} (h : runScript tests runs = .report outcomes status)
+    (hs : ∃ o ∈ outcomes, o.2 = Verdict.skipped) :
+    outcomes = (List.range tests.length).map (fun i => (i, Verdict.skipped)) ∧ status = 0 :=
+  runScript_skip_all_or_none h hs
+
+/-! Non-vacuity, evaluated by the kernel from the bytes of a document with two test cases: the
+second command ends with 80; without a skip code nothing is skipped; a Cram document. -/
+example : testDocumentBytes exBytes exRunsSkip = .report [(0, .skipped), (1, .skipped)] 0 := ex_report_skip
+example : skips exTests exRunsSkip = true := by decide
+example : testDocumentBytes exBytes exRunsBad = .report [(0, .ok), (1, .malformed)] 50 := ex_report_bad
+example : skips exTests exRunsBad = false := by decide
+example : testCramDocumentBytes exCramBytes exCramRunsSkip = .report [(0, .skipped), (1, .skipped)] 0 :=
+  ex_cram_skip
+
+end Integrated
 
 end Scrut.Props.C15
